@@ -170,11 +170,11 @@ impl Components {
         self.data.get(0).map(|v| v.num_steps()).unwrap_or(0)
     }
 
-    /// Conjunto de vectores energéticos disponibles en componentes de energía consumida o producida
+    /// Conjunto de vectores energéticos disponibles en componentes de energía consumida (incluidos auxiliares) o producida
     pub fn available_carriers(&self) -> HashSet<Carrier> {
         self.data
             .iter()
-            .filter(|c| c.is_used() || c.is_generated())
+            .filter(|c| c.is_used() || c.is_generated() || c.is_aux())
             .map(|e| e.carrier())
             .collect()
     }
